@@ -5,14 +5,33 @@
 cd /verif
 [ -z "$(git -C /repo status --porcelain --untracked-files=no)" ] || { echo "/repo has uncommitted changes"; exit 2; }
 mkdir -p selftest; rows=""; miss=0
-for d in seeded/*/; do
+for d in seeded/C*/; do
   n=$(basename "$d"); id=${n%-*}
   if [ -n "${1:-}" ] && ! echo "$n" | grep -qE "$1"; then continue; fi
   git -C /repo apply "/verif/${d}patch.diff" || { echo "$n: patch does not apply"; miss=1; continue; }
   t0=$(date +%s)
-  VERIF_OUT=/var/tmp/verif-seeded-out ./check "$id" quick > /var/tmp/verif-seeded-out.log 2>&1; rc=$?
+  # the property the change was written against, plus every other claimed property whose anchored files it touches
+  props=$(python3 - "/verif/${d}patch.diff" "$id" <<'PY'
+import json,re,sys
+files=set(re.findall(r'^\+\+\+ b/(\S+)', open(sys.argv[1]).read(), re.M))
+claimed=[l.strip() for l in open('/verif/tools/built.txt') if l.strip()]
+out=[sys.argv[2]]
+for l in open('/verif/properties.jsonl'):
+    p=json.loads(l)
+    if p['id'] in claimed and p['id'] not in out and files & set(p['anchors']['files']): out.append(p['id'])
+print(' '.join(out))
+PY
+)
+  rc=0; cls=""; per=""
+  for q in $props; do
+    VERIF_OUT=/var/tmp/verif-seeded-out ./check "$q" quick > /var/tmp/verif-seeded-out.log 2>&1; r=$?
+    per="$per $q=$r"
+    [ $r -eq 1 ] && { rc=1; cls="$cls$(grep -o 'class=[^ ]*' /var/tmp/verif-seeded-out.log | sort -u | head -3 | tr '\n' ' ')"; }
+    [ $r -ge 2 ] && [ $rc -eq 0 ] && rc=$r
+    [ $rc -eq 1 ] && break
+  done
   git -C /repo checkout -- .
-  cls=$(grep -o 'class=[^ ]*' /var/tmp/verif-seeded-out.log | sort -u | head -4 | tr '\n' ' ')
+  cls="$per | $cls"
   echo "$n: quick check exit $rc ($(( $(date +%s) - t0 )) s) $cls"
   [ $rc -eq 1 ] || miss=1
   rows="$rows{\"seeded\":\"$n\",\"property\":\"$id\",\"quick_check_exit\":$rc,\"classes\":\"$cls\"},"
